@@ -74,6 +74,54 @@ def run(tier, workers=None):
         "histories": [[], [("put", "cal", "a.ics", "X")], [("put", "cal", "a.ics", "X"), ("put", "cal", "b.ics", "Z")]],
         "ops": [("put", "cal", "a.ics", "X2"), ("delete", "cal", "a.ics"), ("proppatch", "cal", "displayname", "d1"), ("post", "cal", "T")] + ([("put", "ab", "a.vcf", "K"), ("put", "cal", "b.ics", "Z")] if tier == "thorough" else []),
     }
-    return e1common.run_configs("C01", tier, configs(tier), depth_of, workers=workers, seeds=seeds, assumptions=ASSUME + [
+    return e1common.run_configs("C01", tier, configs(tier), depth_of, workers=workers, seeds=seeds, extra=store_fault_phase, assumptions=ASSUME + [
+        "store fault phase: on vdir, tree and bare stores (Store API), at three states, every single placement of an ENOSPC failure on a mutating file-system call of import_one / delete_one; an operation that then raises must leave listing, ETags and contents as they were, also after reopening",
         "fault phase: at three states, every single placement of an ENOSPC failure on a mutating file-system call of PUT/DELETE/PROPPATCH/POST; a request that then fails must change nothing observable and must not wedge the collection",
     ], faults=faults)
+
+
+def store_fault_phase(rep):
+    """Every single ENOSPC placement on the mutating file-system calls of one store operation (vdir is only reachable through the Store API)."""
+    from ..core import bodies as B
+    from ..core import sched
+    from ..core.storesys import OneStore
+
+    stats = {"cases": 0, "points": 0, "failed_ops": 0, "succeeded_despite_fault": 0}
+    names = ("a.ics", "b.ics")
+
+    def view(st):
+        return (st.listing(), {n: st.read(n) for n in names})
+
+    for kind in ("vdir", "tree", "bare"):
+        for hist in ([], [("a.ics", "X")], [("a.ics", "X"), ("b.ics", "Z")]):
+            for op in (("put", "a.ics", "X2"), ("put", "b.ics", "Z"), ("delete", "a.ics")):
+                stats["cases"] += 1
+                k = 0
+                while k < 80:
+                    st = OneStore(kind)
+                    try:
+                        for n, b in hist:
+                            st.put(n, B.ALL_BODIES[b])
+                        before = view(st)
+                        with sched.FaultInjector(st.dir, k) as inj:
+                            r = st.put(op[1], B.ALL_BODIES[op[2]]) if op[0] == "put" else st.delete(op[1])
+                        if inj.fired is None:
+                            break
+                        stats["points"] += 1
+                        if r[0] == "ok":
+                            stats["succeeded_despite_fault"] += 1
+                        else:
+                            stats["failed_ops"] += 1
+                            after = view(st)
+                            reopened = view(st) if st.restart() else after
+                            for what, v in (("same-handle", after), ("reopened", reopened)):
+                                if v != before:
+                                    changed = sorted(n for n in names if v[1].get(n) != before[1].get(n) or v[0].get(n) != before[0].get(n))
+                                    rep.violation("C01|store:%s|failed-operation-changed-state:%s:%s" % (kind, op[0], what),
+                                                  "a store operation that raised (%s, ENOSPC on mutating call %d: %s) changed %s" % (r[0], k, inj.fired.split(":")[0], changed),
+                                                  {"kind": kind, "history": hist, "op": op, "fault_k": k, "fault_at": inj.fired, "result": r[0], "before": repr(before)[:500], "after": repr(v)[:500]})
+                                    break
+                    finally:
+                        st.close()
+                    k += 1
+    return {"store_fault_phase": stats}
